@@ -90,7 +90,13 @@ def pool_programs(r):
     walrus_use = '%s:\n    addi t0, t0, nleak\n    nop\n' % lab
     upper_reg = '%s:\n    addi SP, SP, 16\n    add A0, A0, X5\n    jal RA, %s\n' % (lab, lab)
     upper_const = 'SP = 5\nA0 = 7\nX5 = SP + A0\n%s:\n    addi t0, t0, SP\n    addi t1, t1, X5\n' % lab
-    entries = [('clash', clash), ('blob', blobprog), ('upper-reg', upper_reg), ('upper-const', upper_const), ('walrus-definer', walrus_def), ('walrus-user', walrus_use), ('li-small', li_small), ('li-big', li_big), ('multi-alias', multi_alias), ('definer', definer), ('user', user), ('user-labels', user_labels_only), ('alias-definer', alias_def), ('alias-user', alias_user),
+    # identical programs except for one small integer: anything memoised by a key that conflates nearby values
+    # (hash(-1) == hash(-2) in CPython; 0 == False; 1 == True == 1.0) shows when one follows the other
+    tmpl = '%s:\n    addi t0, t0, {v}\n    andi s0, s0, {v}\n    xori a0, a1, {v}\n    lw a0, {v}(sp)\n    sw t1, {v}(s1)\n    slti t2, t2, {v}\n    dw {v}\n    db {v}\n' % lab
+    imm_a = tmpl.replace('{v}', '-1')
+    imm_b = tmpl.replace('{v}', '-2')
+    imm_c = tmpl.replace('{v}', r.choice(('0', '1')))
+    entries = [('clash', clash), ('blob', blobprog), ('imm-a', imm_a), ('imm-b', imm_b), ('imm-c', imm_c), ('upper-reg', upper_reg), ('upper-const', upper_const), ('walrus-definer', walrus_def), ('walrus-user', walrus_use), ('li-small', li_small), ('li-big', li_big), ('multi-alias', multi_alias), ('definer', definer), ('user', user), ('user-labels', user_labels_only), ('alias-definer', alias_def), ('alias-user', alias_user),
                ('shifted', shifted), ('compressy', compressy), ('redefine', redefine)]
     # failing programs, one per fault class
     for cls in r.sample(sorted(c for c in progs.FAULTS if c != 'duplicate-label'), 3):
@@ -157,7 +163,7 @@ def make_history(r, nsteps=None):
             if ops and ops[-1]['op'] == 'assemble' and r.random() < 0.35:
                 prev = pool[ops[-1]['prog']]['kind']
                 want = {'definer': ('user', 'user-labels', 'redefine'), 'alias-definer': ('alias-user',), 'tree': ('user', 'user-labels'),
-                        'li-small': ('li-big',), 'li-big': ('li-small',), 'walrus-definer': ('walrus-user',), 'upper-reg': ('upper-const',), 'upper-const': ('upper-reg',), 'big-nc': ('big-c',), 'big-c': ('big-nc', 'big-c'), 'multi-alias': ('alias-user', 'user-labels')}.get(prev)
+                        'li-small': ('li-big',), 'li-big': ('li-small',), 'walrus-definer': ('walrus-user',), 'upper-reg': ('upper-const',), 'upper-const': ('upper-reg',), 'imm-a': ('imm-b', 'imm-c'), 'imm-b': ('imm-a', 'imm-c'), 'imm-c': ('imm-a', 'imm-b'), 'big-nc': ('big-c',), 'big-c': ('big-nc', 'big-c'), 'multi-alias': ('alias-user', 'user-labels')}.get(prev)
                 if want:
                     cands = [j for j, p in enumerate(pool) if p['kind'] in want]
                     if cands:
@@ -345,7 +351,9 @@ SEMANTIC_TABLES = ('REGISTERS', 'INSTRUCTIONS', 'KEYWORDS', 'PSEUDO_INSTRUCTIONS
 
 
 def is_semantic_table(name):
-    return name in SEMANTIC_TABLES or name.endswith('_TYPE_INSTRUCTIONS') or name.endswith('_INSTRUCTIONS')
+    # exactly the tables of the assembler as it stands: the *_TYPE_INSTRUCTIONS name sets, FENCE_INSTRUCTIONS and the
+    # named ones; a new module-level container (whatever its name) is a cache to be judged by its effect
+    return name in SEMANTIC_TABLES or name.endswith('_TYPE_INSTRUCTIONS') or name == 'FENCE_INSTRUCTIONS'
 
 
 def run_history(scen):
